@@ -308,6 +308,30 @@ def names_in(t, acc=None):
     return acc
 
 
+def morient(m, orient):
+    """'r' / 'c' for expressions whose storage orientation is determined by dense operands, 'u' otherwise"""
+    h = m[0]
+    if h == "MVar": return "c" if orient.get(m[1]) else "r"
+    if h == "MTrans":
+        o = morient(m[1], orient); return {"r": "c", "c": "r"}.get(o, o)
+    if h in ("MRange", "MRows", "MCols"): return morient(m[1], orient)
+    if h == "MConst": return "r"
+    if h in ("MScale", "MUn"): return morient(m[2], orient)
+    if h in ("MAdd", "MMinus"): return morient(m[1], orient)
+    if h == "MBin": return morient(m[2], orient)
+    return "u"
+
+
+def has_mixed_bin(t, orient):
+    """a matrix_binary whose operands have different storage orientations: `S + (S * Cm)` segfaults
+    (finding crash:A+f(B,C):mixed-orientation), kept out of the main stream"""
+    if not isinstance(t, tuple): return False
+    if t[0] == "MBin":
+        a, b = morient(t[2], orient), morient(t[3], orient)
+        if a != b and "u" not in (a, b): return True
+    return any(has_mixed_bin(x, orient) for x in t[1:])
+
+
 def is_mlval(m):
     return m[0] == "MVar" or (m[0] in ("MTrans", "MRange", "MRows", "MCols") and is_mlval(m[1]))
 
@@ -455,11 +479,13 @@ def cxx_program(decls, orient, stmts, rng=None, sparse=()):
     for d in decls:
         if d[0] == "v":
             ty = "compressed_vector<T>" if ("v", d[1]) in sparse else "vector<T>"
-            L.append("  %s v%d(%d);" % (ty, d[1], d[2])); dumpcode.append("pv(%d,v%d);" % (d[1], d[1]))
+            L.append("  %s v%d(%d);" % (ty, d[1], d[2]))
+            dumpcode.append(("{ vector<T> t_(v%d); pv(%d,t_); }" % (d[1], d[1])) if ("v", d[1]) in sparse else "pv(%d,v%d);" % (d[1], d[1]))
         else:
             if ("m", d[1]) in sparse: ty = "compressed_matrix<T>"
             else: ty = "matrix<T,%s>" % ("column_major" if orient.get(d[1]) else "row_major")
-            L.append("  %s m%d(%d,%d);" % (ty, d[1], d[2], d[3])); dumpcode.append("pm(%d,m%d);" % (d[1], d[1]))
+            L.append("  %s m%d(%d,%d);" % (ty, d[1], d[2], d[3]))
+            dumpcode.append(("{ matrix<T> t_(m%d); pm(%d,t_); }" % (d[1], d[1])) if ("m", d[1]) in sparse else "pm(%d,m%d);" % (d[1], d[1]))
     L.append("#define P() do{ std::printf(\"%d ok r=%s |\", K++, isred? num(RED).c_str() : \"-\"); isred=false; " + " ".join(dumpcode) + " std::printf(\"\\n\"); std::fflush(stdout); }while(0)")
     for k, st in enumerate(stmts):
         code = cx.stmt(st)
@@ -854,6 +880,7 @@ class Gen:
                 try: st = self.statement()
                 except RecursionError: st = None
             if st is None: continue
+            if has_mixed_bin(st, self.orient): self.count("rejected(mixed-orientation binary)"); continue
             try:
                 s2, _ = exec_stmt(s, st)
             except Reject:
